@@ -32,7 +32,7 @@ Proof.
   rewrite forallb_forall in H. exact (H fl (all_flags_complete fl)).
 Qed.
 
-(* the evaluations (the bound is the whole domain: 20 operations x 2 layouts x 3888 flag vectors) *)
+(* the evaluations (the bound is the whole domain: 21 operations x 2 layouts x 3888 flag vectors) *)
 Lemma pure_checked : for_all_calls chk_pure = true. Proof. vm_compute. reflexivity. Qed.
 Lemma separate_checked : for_all_calls (chk_separate_on [M; DictO; DictS]) = true. Proof. vm_compute. reflexivity. Qed.
 Lemma ids_unwritten_checked : for_all_calls chk_ids_unwritten = true. Proof. vm_compute. reflexivity. Qed.
